@@ -216,8 +216,7 @@ theorem ltpState_zero_same (Ds : List (Dist Mode)) (hne : Ds ≠ []) (hds : ∀ 
       exact lift_NonNeg x (hds x hx)
     have hds' : ∀ d ∈ ((d₁ :: d₂ :: Ds).map lift).map (trim 0), NonNeg d := by
       intro d hd
-      simp only [List.mem_map] at hd
-      obtain ⟨x, hx, rfl⟩ := hd
+      obtain ⟨x, hx, rfl⟩ := List.mem_map.mp hd
       exact trim_NonNeg 0 x (hl x hx)
     show E g (dfs 0 (fun s e => s ++ e) (((d₁ :: d₂ :: Ds).map lift).map (trim 0)) [] 1) = _
     rw [E_dfs_zero g _ _ hds' [] 1 zero_le_one, one_mul, E_prodLaw_trim_zero _ _ hl]
